@@ -8,8 +8,8 @@ TRANSLATED = [T + "Translated." + n for n in ["make_last_to_evict_eq","insert_eq
 
 REGISTRY: dict[str, dict] = {
     "C05": dict(
-        modules=["C05", "Tables", "C07Grouped", "Translated", "TranslatedFuncs"],
-        theorems=[T + "Translated.split_iri_eq", T + "C05_mirror_history", T + "C05_prefix_disabled", T + "C05_term_level_iris", *TRANSLATED],
+        modules=["C05", "Tables", "C07Grouped", "Translated", "TranslatedFuncs", "TranslatedEnc"],
+        theorems=[T + "Translated.encode_iri_indices_eq", T + "Translated.split_iri_eq", T + "C05_mirror_history", T + "C05_prefix_disabled", T + "C05_term_level_iris", *TRANSLATED],
         table_theorems=[T + "tables_constants"],
         rule="LOOKUP: all key histories up to a length over alphabets of size+2 for sizes 1..3 (exhaustive up to the "
              "stated length), random long histories for sizes 0..8, 16, 4096; TermEncoder→Decoder histories. "
@@ -144,8 +144,8 @@ REGISTRY: dict[str, dict] = {
                      "behaviour: observed by the watchdog, not proved (claimed partial)"],
     ),
     "C03": dict(
-        modules=["C03", "C06", "C01Bytes", "WireRoundTrip"],
-        theorems=[T + "C03_triples", T + "C03_quads", T + "C03_graphs", T + "C06_rows_independent_of_flow",
+        modules=["C03", "C06", "C01Bytes", "WireRoundTrip", "TranslatedEnc"],
+        theorems=[T + "Translated.encode_iri_indices_eq", T + "Translated.entry_index_exec", T + "Translated.name_term_index_exec", T + "Translated.prefix_term_index_exec", T + "C03_triples", T + "C03_quads", T + "C03_graphs", T + "C06_rows_independent_of_flow",
                   T + "C03_bytes_delimited", T + "written_rows_wireWF", T + "wire_delimited_roundtrip", T + "wire_single_concat",
                   T + "namespace_run"],
         rule="SER (generic integration: stream_frames with sink/generator input, flat_/grouped_stream_to_file; namespace "
@@ -179,8 +179,8 @@ REGISTRY: dict[str, dict] = {
              "sizing predicate is cross-checked against the Lean predicate stmtFits. Non-trivial = >= 2 statements.",
     ),
     "C19": dict(
-        modules=["C19", "C03"],
-        theorems=[T + "C19_triples", T + "C19_quads", T + "C19_graphs", T + "C19_each_name_once", T + "C03_triples"],
+        modules=["C19", "C03", "TranslatedEnc"],
+        theorems=[T + "Translated.encode_iri_indices_eq", T + "Translated.entry_index_exec", T + "Translated.name_term_index_exec", T + "Translated.prefix_term_index_exec", T + "C19_triples", T + "C19_quads", T + "C19_graphs", T + "C19_each_name_once", T + "C03_triples"],
         rule="SPEC audit on the REAL bytes of generic serializer cases (3 classes, all entry points, namespace declarations, "
              "presets down to 8/0/0 and 8/1/1, frame sizes 1..250): the Lean referee's counters redundant-entry, missed-repeat, "
              "missed-zero (and split-graph for GraphStream) must all be 0. Inputs with xsd:string-typed literals are left out "
